@@ -56,7 +56,9 @@ class Sym:
         return self.syms[key]
 
 
-FUNCS = {"exp": sp.exp, "arctan": sp.atan, "sin": sp.sin, "cos": sp.cos, "tanh": sp.tanh, "sqrt": sp.sqrt}
+TRUNC = sp.Function("trunc")     # int(x): truncation towards zero, uninterpreted
+FUNCS = {"exp": sp.exp, "arctan": sp.atan, "sin": sp.sin, "cos": sp.cos, "tanh": sp.tanh, "sqrt": sp.sqrt,
+         "acos": sp.acos, "arccos": sp.acos}
 
 
 class Kernel:
@@ -77,6 +79,8 @@ class Kernel:
         self.helpers = helpers or {}     # name -> callable on sympy values (contracts of one-line helpers)
         self.args = [a.arg for a in self.node.args.args]
         self.paths = []
+        self.plain_math = False      # sqrt/cos/... imported from math as plain names
+        self.int_is_trunc = False    # int(x) of a float is a truncation (uninterpreted), not the identity
 
     def run(self, scalars=()):
         env = {}
@@ -183,7 +187,11 @@ class Kernel:
             raise FloatOutOfSubset("operator")
         if isinstance(e, ast.Compare) and len(e.ops) == 1:
             a, b = self._ev(e.left, env, outs), self._ev(e.comparators[0], env, outs)
-            return {ast.Lt: sp.Lt, ast.LtE: sp.Le, ast.Gt: sp.Gt, ast.GtE: sp.Ge}[type(e.ops[0])](a, b)
+            return {ast.Lt: sp.Lt, ast.LtE: sp.Le, ast.Gt: sp.Gt, ast.GtE: sp.Ge, ast.Eq: sp.Eq,
+                    ast.NotEq: sp.Ne}[type(e.ops[0])](a, b)
+        if isinstance(e, ast.IfExp):
+            return sp.Piecewise((self._ev(e.body, env, outs), self._ev(e.test, env, outs)),
+                                (self._ev(e.orelse, env, outs), True))
         if isinstance(e, ast.Subscript) and isinstance(e.value, ast.Name):
             arr = env.get(e.value.id)
             if isinstance(arr, tuple) and arr[0] == "array":
@@ -201,6 +209,10 @@ class Kernel:
                 return FUNCS[f.attr](*args)
             if isinstance(f, ast.Name) and f.id in self.helpers:
                 return self.helpers[f.id](*args)
+            if isinstance(f, ast.Name) and f.id in FUNCS and self.plain_math:
+                return FUNCS[f.id](*args)
+            if isinstance(f, ast.Name) and f.id == "int" and len(args) == 1 and self.int_is_trunc:
+                return TRUNC(args[0])
             if isinstance(f, ast.Name) and f.id in ("float", "int") and len(args) == 1:
                 return args[0]
             raise FloatOutOfSubset(f"call {ast.unparse(f)}")
